@@ -18,7 +18,7 @@ def decide(pid, tier, seed, prop, replay, t0, ck):
     tie_thms = list(prop.get("tie_theorems", []))
     if tie_mods:
         tok, tmsg = ck.regen_trans()
-        obligations.append(("trans:pkg/buffer translated from /repo (go/translate)", tok, tmsg))
+        obligations.append(("trans:pkg/buffer and copy.go translated from /repo (go/translate)", tok, tmsg))
     targets = ["Pw.Conformance." + c for c in prop.get("conformance", [])] + [prop["module"]] + tie_mods
     bok, bout = ck.lake_build(targets)
     failed_mods = sorted(set(_failed_modules(bout))) if not bok else []
